@@ -12,6 +12,7 @@ CONSTANTS
   MaxInbound = 2
   MaxTime = 0
   Faults = TRUE
+  MaxRestart = 1
   UseFourth = TRUE
   SetIdxs = {0, 1, 2, 3}
   TimeSteps = {30, 270, 300, 3600}
